@@ -194,7 +194,7 @@ def conds(tier):
     cs = []
     amax, smax = (4, 6) if q else (6, 10)
     for p in (1, 2, 3):
-        ks = [P("k%d" % i, "int", 0, 3 if (p == 3 and q) else len(KINDS)) for i in range(1, p + 1)]
+        ks = [P("k%d" % i, "int", 0, 3 if p == 3 else len(KINDS)) for i in range(1, p + 1)]
         if p == 3:
             avals = [P("a%d" % i, "int", 0, 3 if q else 4) for i in range(1, p + 1)]
             size = P("size", "int", 0, 5 if q else 8)
